@@ -19,7 +19,7 @@ ADV = ["adv"]
 
 CHECKS = {
     "C01": {
-        "quick": {"gen": [G("MC_C01", "MC_C01_quick.cfg")], "drive": [D("strict", 3000, only=["strict.compose", "law."]), D("glue", 4000, only=["strict.compose"])], "suite": {"tests": "--test lib open_hypergraph", "ops": ["strict.compose"]}},
+        "quick": {"gen": [G("MC_C01", "MC_C01_quick.cfg"), G("MC_C01", "MC_C01_labels.cfg")], "drive": [D("strict", 3000, only=["strict.compose", "law."]), D("glue", 4000, only=["strict.compose"])], "suite": {"tests": "--test lib open_hypergraph", "ops": ["strict.compose"]}},
         "thorough": {"gen": [G("MC_C01", "MC_C01_thorough.cfg"), G("MC_C01", "MC_C01_thorough_b.cfg")], "drive": [D("strict", 50000, only=["strict.compose", "law."]), D("glue", 100000, only=["strict.compose"])], "suite": {"tests": "--test lib", "ops": ["strict.compose"], "max_nodes": 14, "max_edges": 8}},
         "require_ops": ["strict.compose"],
     },
